@@ -13,9 +13,13 @@ try:
     for p in props:
         t0 = time.time()
         env = dict(os.environ, VERIF_EVIDENCE_DIR=os.path.join(VERIF, '.build', 'seed-evidence'))
-        r = subprocess.run([os.path.join(VERIF, 'check'), p, '--tier', 'quick'], cwd=VERIF, capture_output=True, text=True, env=env)
+        tier = os.environ.get('SEED_TIER', 'quick')
+        cmd = [os.path.join(VERIF, 'check'), p, '--tier', tier]
+        if os.environ.get('SEED_ONLY'):
+            cmd += ['--only', os.environ['SEED_ONLY']]
+        r = subprocess.run(cmd, cwd=VERIF, capture_output=True, text=True, env=env)
         lines = [l for l in r.stdout.split('\n') if l.startswith(('VIOLATION', 'violation:', 'INCONCLUSIVE', 'OK '))]
-        res[p] = {'exit': r.returncode, 'wall_s': round(time.time() - t0), 'lines': lines[:6]}
+        res[p if tier == 'quick' else p + ':' + tier] = {'exit': r.returncode, 'wall_s': round(time.time() - t0), 'lines': lines[:6]}
         print(sid, p, 'exit=%d' % r.returncode, '%ds' % (time.time() - t0), '|', ' || '.join(lines[:3])[:400], flush=True)
 finally:
     subprocess.run(['git', '-C', '/repo', 'checkout', '--', '.'], check=True)
